@@ -328,15 +328,7 @@ def r12_2(run):
     i_stage = next((i for i, s in enumerate(stmts) if "hydraulics(net)" in s or "bidirectional(net)" in s), None)
     run.ob("converged-reset-before-stages", i_conv is not None and i_stage is not None and i_conv < i_stage,
            "net.converged is reset before any stage runs", run.where(pf, pf.node))
-    # the lookups and the pit are rebuilt unconditionally by pipeflow itself
-    names = [callee_name(c) for s in pf.node.body for c in calls(s)]
-    order = [n for n in names if n in ("init_options", "init_all_result_tables", "create_lookups", "initialize_pit",
-                                       "identify_active_nodes_branches", "hydraulics", "heat_transfer", "bidirectional", "extract_all_results")]
-    want = ["init_options", "init_all_result_tables", "create_lookups", "initialize_pit", "identify_active_nodes_branches"]
-    run.ob("entry-sequence", order[:5] == want,
-           "pipeflow starts with init_options, init_all_result_tables, create_lookups, initialize_pit, identify_active_nodes_branches",
-           run.where(pf, pf.node), detail=str(order))
-    run.floor(9)
+    run.floor(8)
 
 
 def r12_3(run):
